@@ -110,8 +110,15 @@ func specDSL(sp Spec) string {
 	if sp.Burst != nil && sp.Burst.On == "target2" {
 		by[routePath] = append(by[routePath], burstTgt)
 	}
+	backend, wired := strings.CutPrefix(sp.Store, "wired-")
+	if wired {
+		b.WriteString(retainBlocks[sp.Retain].text) // part j (retain_test.go)
+	}
 	for _, rt := range routes {
 		fmt.Fprintf(&b, "%s {\n  deliver_concurrency %d\n", rt, sp.Conc)
+		if wired {
+			fmt.Fprintf(&b, "  queue { backend %s }\n", backend)
+		}
 		for _, t := range by[rt] {
 			fmt.Fprintf(&b, "  deliver \"%s\" {\n%s  }\n", t.URL(), deliverBody(t, "    "))
 		}
